@@ -20,8 +20,9 @@ PATS = ["a", "ab", "a+", "[ab]", "b$", "^a", "a|bb"]
 OBLIGATIONS = []
 for _i, _p in enumerate(PATS):
     _q = "quick" if _i in (0, 2, 4, 5) else "thorough"
-    for _fn, _secs in (("repl_count", 15), ("repl_sub", 40), ("search_pos", 25)):
-        OBLIGATIONS.append(Obl(name=f"{_fn}_pat{_i}", module="h_repl", func=_fn, shadow=True, timeout=max(120, _secs * 5), tier=_q,
+    for _fn, _secs in (("repl_count", 15), ("repl_sub", 40), ("search_pos", 25), ("search_after_edit", 160)):
+        OBLIGATIONS.append(Obl(name=f"{_fn}_pat{_i}", module="h_repl", func=_fn, shadow=True, timeout=max(120, _secs * 5),
+                               tier=_q if (_fn != "search_after_edit" or _i in (0, 4)) else "thorough",
                                env={"VERIF_PAT": str(_i)}, extra={"pat": _i}, replay="r_h_repl:" + _fn, weight=_secs,
                                bounds=f"pattern {_p!r}; t0, t1 of <= 2 characters over {{a, b}}", encodes=_ENC, stubs=_STUB))
 for _new in ("", " "):
